@@ -630,18 +630,16 @@ class DataflowTransactionContext(ABC):  # pylint: disable=too-few-public-methods
             # print(f"block:", repr(block),"prev_b ", repr(prev_b), f"block: {block.__hash__()}, prev_b: {prev_b.__hash__()}")
             # print(path_context)
             # print(path_context[block])
-            reachin_information = self._union(
-                key,
-                reachin_information,
-                self._intersection(key, reachout[prev_b], path_context[block][prev_b]),
+            prev_information = self._intersection(
+                key, reachout[prev_b], path_context[block][prev_b]
             )
-
-        if block.is_sub_return_point:
-            # this block is the return point for callsub instruction present in `block.callsub_block`
-            # execution will only reach this block, if it reaches `block.callsub_block`
-            reachin_information = self._intersection(
-                key, reachin_information, reachout[block.callsub_block]
-            )
+            if block.is_sub_return_point and prev_b.is_retsub_block:
+                # this block is the return point for callsub instruction present in `block.callsub_block`
+                # execution returns from the subroutine to this block only if it reached `block.callsub_block`
+                prev_information = self._intersection(
+                    key, prev_information, reachout[block.callsub_block]
+                )
+            reachin_information = self._union(key, reachin_information, prev_information)
 
         return reachin_information
 
